@@ -305,3 +305,86 @@ Example C09_quantile_bucket_bound_nonvacuous :
   /\ bounds None [3] = [(None, Some 3); (Some 3, None)]
   /\ bucket_count vc None (Some 3) = 88 /\ bucket_count vc (Some 3) None = 12.
 Proof. exact bucket_bound_example. Qed.
+
+(* ---- the three premises are THEOREMS about binary64 (Proofs/QuantileFloatProofs.v: one-ulp enclosure
+   of SFmul/SFdiv, exactness of f_of_Z, floor, round-half-even, float comparison) as soon as
+   len_df <= 2^50 and q <= 2^50: positions within 1 of the floor (e = 1), K = 2^50, thr_exact. ---- *)
+From AC.Proofs Require Import QuantileFloatProofs.
+
+Theorem C09_quantile_float_premises : forall q len_df vc,
+  Forall (fun p => 0 < snd p) vc -> 0 < q <= 2 ^ 50 -> total vc <= len_df -> len_df <= 2 ^ 50 ->
+  thr_exact q len_df vc /\ newq_near (2 ^ 50) q len_df (total vc) /\ positions_near 1 q len_df (total vc).
+Proof.
+  exact (fun q N vc Hp Hq Ht HN =>
+    conj (thr_exact_binary64 q N vc Hp Hq Ht HN)
+      (conj (newq_near_binary64 q N (total vc) Hq Ht HN) (positions_near_binary64 q N (total vc) Hq Ht HN))).
+Qed.
+Print Assumptions C09_quantile_float_premises.
+
+(* no premise about floats: every bucket free of over-represented values holds at most
+   2.25*len_df/q + 2 rows, for every aggregate numpy.unique can produce with len_df <= 2^50 *)
+Theorem C09_quantile_bucket_bound_binary64 : forall dedup q len_df vc l,
+  Sorted Z.lt (observed_values vc) -> Forall (fun p => 0 < snd p) vc -> total vc <= len_df ->
+  len_df <= 2 ^ 50 -> 0 < q <= 2 ^ 50 ->
+  find_quantiles_v dedup q len_df vc = QOk l ->
+  forall lo hi, In (lo, hi) (bounds None l) ->
+  (forall b c, hi = Some b -> In (b, c) vc -> is_freq (thr len_df q) c = false) ->
+  4 * q * bucket_count vc lo hi <= 9 * len_df + 8 * q.
+Proof. exact bucket_bound_binary64. Qed.
+Print Assumptions C09_quantile_bucket_bound_binary64.
+
+(* at most 2.5/q of the rows when len_df >= 8*q *)
+Theorem C09_quantile_bucket_bound_2_5_binary64 : forall dedup q len_df vc l,
+  Sorted Z.lt (observed_values vc) -> Forall (fun p => 0 < snd p) vc -> total vc <= len_df ->
+  len_df <= 2 ^ 50 -> 0 < q -> 8 * q <= len_df ->
+  find_quantiles_v dedup q len_df vc = QOk l ->
+  forall lo hi, In (lo, hi) (bounds None l) ->
+  (forall b c, hi = Some b -> In (b, c) vc -> is_freq (thr len_df q) c = false) ->
+  2 * q * bucket_count vc lo hi <= 5 * len_df.
+Proof. exact bucket_bound_2_5_binary64. Qed.
+Print Assumptions C09_quantile_bucket_bound_2_5_binary64.
+
+(* at most 2.5*min_freq of the rows when min_freq >= (0.9 + 0.8*q/len_df)/q *)
+Theorem C09_quantile_bucket_bound_min_freq_partial_binary64 : forall dedup mf q len_df vc l,
+  Sorted Z.lt (observed_values vc) -> Forall (fun p => 0 < snd p) vc -> total vc <= len_df ->
+  len_df <= 2 ^ 50 -> 0 < q <= 2 ^ 50 ->
+  snd mf <= 0 -> (9 * len_df + 8 * q) * 2 ^ (- snd mf) <= 10 * q * fst mf * len_df ->
+  find_quantiles_v dedup q len_df vc = QOk l ->
+  forall lo hi, In (lo, hi) (bounds None l) ->
+  (forall b c, hi = Some b -> In (b, c) vc -> is_freq (thr len_df q) c = false) ->
+  2 * bucket_count vc lo hi * 2 ^ (- snd mf) <= 5 * fst mf * len_df.
+Proof. exact bucket_bound_min_freq_binary64. Qed.
+Print Assumptions C09_quantile_bucket_bound_min_freq_partial_binary64.
+
+(* the premises are satisfiable: min_freq = 0.25 = 1 * 2^-2, q = 4, 400 rows (40 missing), the bucket
+   (1, 4] holds 163 rows <= 2.5 * 0.25 * 400 *)
+Example C09_quantile_bucket_bound_binary64_nonvacuous :
+  let vc := [(1, 90); (2, 9); (3, 55); (4, 99); (5, 99); (6, 8)] in
+  Sorted Z.lt (observed_values vc) /\ Forall (fun p => 0 < snd p) vc /\ total vc <= 400
+  /\ q_of_min_freq (1, -2) = Some 4
+  /\ (9 * 400 + 8 * 4) * 2 ^ 2 <= 10 * 4 * 1 * 400
+  /\ find_quantiles_v true 4 400 vc = QOk [1; 4; 5]
+  /\ In (Some 1, Some 4) (bounds None [1; 4; 5])
+  /\ (forall b c, Some 4 = Some b -> In (b, c) vc -> is_freq (thr 400 4) c = false)
+  /\ bucket_count vc (Some 1) (Some 4) = 163.
+Proof.
+  cbv zeta. split; [repeat constructor|]. split; [repeat constructor|]. split; [vm_compute; discriminate|].
+  split; [vm_compute; reflexivity|]. split; [vm_compute; discriminate|]. split; [vm_compute; reflexivity|].
+  split; [right; left; reflexivity|]. split; [|vm_compute; reflexivity].
+  intros b c E Hin. injection E as <-.
+  repeat (destruct Hin as [E|Hin]; [inversion E; subst; vm_compute; reflexivity|]).
+  destruct Hin.
+Qed.
+
+(* and the search itself never fails there (no QFloat / QIndex outcome: every computed position is
+   an index of the sorted sub-sample): this settles, for len_df <= 2^50, the question left open in
+   Proofs/QuantFitProofs.v about QFail with positive counts *)
+Theorem C09_quantile_bucket_bound_never_fails : forall dedup q len_df vc,
+  Sorted Z.lt (observed_values vc) -> Forall (fun p => 0 < snd p) vc ->
+  0 < q <= 2 ^ 50 -> total vc <= len_df -> len_df <= 2 ^ 50 ->
+  exists l, find_quantiles_v dedup q len_df vc = QOk l
+    /\ forall lo hi, In (lo, hi) (bounds None l) ->
+       (forall b c, hi = Some b -> In (b, c) vc -> is_freq (thr len_df q) c = false) ->
+       4 * q * bucket_count vc lo hi <= 9 * len_df + 8 * q.
+Proof. exact bucket_bound_total_binary64. Qed.
+Print Assumptions C09_quantile_bucket_bound_never_fails.
